@@ -537,3 +537,118 @@ def option_transpose(eng, st, site, func, target, args, dty):
             else:
                 out.append((s3, mk_result(eng, dty, False, x)))
     return out
+
+
+@stub(r"^std::iter::ExactSizeIterator::len$|std::iter::ExactSizeIterator>::len$")
+def exact_size_len(eng, st, site, func, target, args, dty):
+    it = args[0]
+    if isinstance(it, VRef):
+        it = eng.load(st, it.cell, it.path)
+    us = eng.usize_ty()
+    if isinstance(it, VIter) and isinstance(it.pos, Lin) and it.kind in ("slice", "vec", "chunks"):
+        if it.kind == "slice":
+            ln = it.src.len
+        elif it.kind == "chunks":
+            ln = it.items
+        else:
+            vv = st.cells.get(it.src)
+            ln = vv.len if isinstance(vv, VVec) else None
+        if ln is not None:
+            return [(st, VInt(us, ln - it.pos))]
+    if isinstance(it, VIter) and it.kind == "array" and it.items is not None:
+        return [(st, VInt(us, Lin.const(len(it.items) - it.pos)))]
+    return None
+
+
+@stub(r"^std::vec::Vec::<T, A>::(dedup|dedup_by_key|dedup_by|retain|retain_mut)$")
+def vec_shrinking(eng, st, site, func, target, args, dty):
+    """in-place removal of some elements: the length does not grow; dedup keeps at least one element of a non-empty vector"""
+    cell, v = get_vec(eng, st, args[0])
+    if v is None:
+        return None
+    n = eng.new_int(eng.usize_ty(), "kept", 0)
+    st.cons.append(c_le(n.lin, v.len))
+    if "dedup" in target["name"].rsplit("::", 1)[1]:
+        s1 = st.fork()
+        out = []
+        if eng.add(s1, c_eq(v.len, Lin.const(0))) and eng.add(s1, c_eq(n.lin, Lin.const(0))):
+            s1.cells[cell] = VVec(Lin.const(0), (), None, v.name, v.elem_ty)
+            out.append((s1, UNIT))
+        if eng.add(st, c_le(Lin.const(1), v.len)) and eng.add(st, c_le(Lin.const(1), n.lin)):
+            st.cells[cell] = VVec(n.lin, None, None, (v.name or "vec") + "~", v.elem_ty)
+            st.emit(("listop", cell, target["name"], site_info(site)))
+            out.append((st, UNIT))
+        return out
+    st.cells[cell] = VVec(n.lin, None, None, (v.name or "vec") + "~", v.elem_ty)
+    st.emit(("listop", cell, target["name"], site_info(site)))
+    return [(st, UNIT)]
+
+
+@stub(r"^core::slice::<impl \[T\]>::(sort|sort_unstable|sort_by|sort_by_key|sort_unstable_by|sort_unstable_by_key|reverse)$|^std::slice::<impl \[T\]>::(sort|sort_by|sort_by_key)$")
+def slice_permute(eng, st, site, func, target, args, dty):
+    """in-place permutation: same length, content order unknown afterwards"""
+    s = as_slice(eng, st, args[0])
+    if s is None:
+        return None
+    tgt = st.cells.get(s.base)
+    if isinstance(tgt, VVec):
+        st.cells[s.base] = VVec(tgt.len, None, None, (tgt.name or "vec") + "~", tgt.elem_ty)
+        st.emit(("listop", s.base, target["name"], site_info(site)))
+    return [(st, UNIT)]
+
+
+@stub(r"^core::num::<impl u(8|16|32|64|128|size)>::(div_ceil|next_multiple_of)$")
+def int_div_ceil(eng, st, site, func, target, args, dty):
+    frame, bb, t = site
+    x, c = args[0], args[1]
+    if not (isinstance(x, VInt) and isinstance(c, VInt) and c.lin.is_const() and c.lin.c > 0):
+        return None
+    which = target["name"].rsplit("::", 1)[1]
+    q, r = eng.divmod_const(st, x.lin, c.lin.c)
+    out = []
+    s0 = st.fork()
+    if eng.add(s0, c_eq(r, Lin.const(0))):
+        out.append((s0, VInt(x.ty, q if which == "div_ceil" else x.lin)))
+    if eng.add(st, c_le(Lin.const(1), r)):
+        if which == "div_ceil":
+            out.append((st, VInt(x.ty, q + 1)))
+        else:
+            res = x.lin + Lin.const(c.lin.c) - r
+            lo, hi = eng.int_range(x.ty)
+            ok = eng.ent(st, c_le(res, Lin.const(hi)))
+            eng.oblig("arith", frame, bb, eng.callee_label(func), ok, st, None if ok else "next_multiple_of may overflow", t.get("ln"))
+            out.append((st, VInt(x.ty, res)))
+    return out
+
+
+@stub(r"^core::num::<impl [ui](8|16|32|64|128|size)>::(trailing_zeros|leading_zeros|count_ones)$")
+def int_bit_counts(eng, st, site, func, target, args, dty):
+    x = args[0]
+    if isinstance(x, VInt) and x.lin.is_const() and x.lin.c >= 0:
+        w, _sg = eng.int_info(x.ty)
+        v = x.lin.c
+        which = target["name"].rsplit("::", 1)[1]
+        if which == "trailing_zeros":
+            r = w if v == 0 else (v & -v).bit_length() - 1
+        elif which == "leading_zeros":
+            r = w - v.bit_length()
+        else:
+            r = bin(v).count("1")
+        return [(st, eng.const_int(dty, r))]
+    return None
+
+
+@stub(r"^core::num::<impl u(8|16|32|64|128|size)>::wrapping_neg$")
+def int_wrapping_neg(eng, st, site, func, target, args, dty):
+    """0 -> 0, x -> 2^w - x"""
+    x = args[0]
+    if not isinstance(x, VInt):
+        return None
+    w, _sg = eng.int_info(x.ty)
+    out = []
+    s0 = st.fork()
+    if eng.add(s0, c_eq(x.lin, Lin.const(0))):
+        out.append((s0, eng.const_int(x.ty, 0)))
+    if eng.add(st, c_le(Lin.const(1), x.lin)):
+        out.append((st, VInt(x.ty, Lin.const(1 << w) - x.lin)))
+    return out
